@@ -34,6 +34,14 @@ POOL = [
      [["decompose", "zyz"]]),
     ("version 3.0\nqubit[3] q\nX90 q[2]\nH q[1]\nS q[0]\nH q[1]\n",
      [["decompose", "mckay"], ["map", [2, 0, 1]], ["decompose", "xzx"]]),
+    # circuits that are not parsed but built (comments exist only there): rotations pending on several qubits around
+    # comments, then merged / mapped — anything iterating over a set of qubits shows under PYTHONHASHSEED
+    (("specs", 4, 1, [["named", "H", [0]], ["named", "X90", [1]], ["named", "Y90", [2]], ["named", "S", [3]], ["comment", "entangle"],
+                      ["named", "CNOT", [0, 1]], ["named", "T", [3]], ["comment", "second"], ["named", "CNOT", [2, 3]], ["measure", 3, 0]]),
+     [["merge"]]),
+    (("specs", 5, 0, [["named", "Rx", [4, 0.3]], ["named", "Ry", [2, 0.4]], ["named", "Rz", [0, 0.5]], ["named", "H", [1]], ["named", "H", [3]],
+                      ["comment", "a"], ["named", "Rx", [4, 0.1]], ["named", "Z", [3]], ["reset", 2], ["named", "CZ", [1, 3]]]),
+     [["merge"], ["map", [4, 2, 0, 3, 1]], ["decompose", "zyz"]]),
 ]
 
 WORKER = r"""
@@ -46,13 +54,22 @@ print(json.dumps(c17.compile_many(order)))
 """
 
 
+def pool_circuit(src, parser=None):
+    """the circuit of a pool entry: parsed from its text, or built from its specification"""
+    from opensquirrel.circuit import Circuit
+
+    if isinstance(src, (tuple, list)):
+        return gen.build_circuit(src[1], src[2], src[3])
+    return Circuit.from_string(src) if parser is None else parser.circuit_from_string(src)
+
+
 def compile_one(i, parser=None):
     from opensquirrel.circuit import Circuit
     from opensquirrel.exporter.export_format import ExportFormat
 
     src, pipeline = POOL[i]
     try:
-        c = Circuit.from_string(src) if parser is None else parser.circuit_from_string(src)
+        c = pool_circuit(src, parser)
         for p in pipeline:
             implrun.apply_pass(c, list(p))
     except Exception as e:  # noqa: BLE001
@@ -196,7 +213,7 @@ def check_pool_vs_model(ctx, i):
     from opensquirrel.circuit import Circuit
 
     src, pipeline = POOL[i]
-    c = Circuit.from_string(src)
+    c = pool_circuit(src)
     nq = c.qubit_register_size
     for p in pipeline:
         pre = ser.ser_stmts(c.ir.statements)
